@@ -358,6 +358,34 @@ def case_forms(mon, y, m, d):
         mon.check("date-forms.identical",
                   all(v == ref for v in vals.values()),
                   dict(case, fn=name, values=vals))
+    # forms that carry a time of day: whatever instant the library takes
+    # them to mean, true obliquity is mean obliquity plus nutation for the
+    # same arguments
+    h, mi, sec = (y * 7 + d) % 24, (m * 11 + d) % 60, 12.5
+    timed = {"y,m,d.frac": (y, m, d + h / 24.0 + mi / 1440.0),
+             "y,m,d,h,mi,s": (y, m, d, h, mi, sec),
+             "tuple-6": ((y, m, d, h, mi, sec),),
+             "list-6": ([y, m, d, h, mi, sec],),
+             "Epoch-with-time": (Epoch(y, m, d, h, mi, sec),)}
+    if 1 <= y <= 9999:
+        try:
+            timed["datetime-with-time"] = (datetime.datetime(
+                y, m, d, h, mi, 12, 500000),)
+        except ValueError:
+            pass
+    for form, args in timed.items():
+        mon.evals += 1
+        try:
+            t_ = C.true_obliquity(*args)()
+            m_ = C.mean_obliquity(*args)()
+            n_ = C.nutation_obliquity(*args)()
+        except Exception as ex:
+            mon.dev("true==mean+deps", dict(case, form=form,
+                                            raised=repr(ex)))
+            continue
+        mon.check("true==mean+deps", abs(t_ - (m_ + n_)) <= 1e-9,
+                  dict(case, form=form, true=t_, mean=m_, deps=n_,
+                       difference_arcsec=(t_ - m_ - n_) * 3600))
 
 
 CASES = {"history": history.case, "reflection": case_reflection, "frames": case_frames,
